@@ -35,6 +35,9 @@ class Stub:
                 raise RAISE_KINDS[self.kind]()
             raise RAISE_KINDS[self.kind]("agent crashed")
         payload = "payload-of-%s" % self.name if self.payload_mode == "named" else PAYLOADS[self.payload_mode]
+        if getattr(self, "source", None) is not None:
+            # a reply stamped with an origin of its own (relayed from a delegate, or carrying some other agent's name)
+            return ActionProtein(self.kind, payload, self.conf, source_agent=self.source)
         return ActionProtein(self.kind, payload, self.conf)
 
 
